@@ -9,6 +9,7 @@ CONSTANTS
   Modes = {"receptor", "dns", "dns_noname"}
   StreamSrcs <- StreamSrcsQuick
   MaxTick = 1
+  KF_LookupMutatesStored = FALSE
   KF_TimeFrozenAtCreation = FALSE
   KF_DigestCachedAcrossCalls = FALSE
   KF_ColonSplit = FALSE
@@ -26,4 +27,6 @@ INVARIANTS
   HistoryIndependent
   PinnedThenUnpinnedRefused
   ValidityJudgedAtHandshake
+  LookupsIndependent
+  LaterLookupStillVerifies
   ExpiryAndOnsetObserved
